@@ -22,7 +22,7 @@ enum { REF_CLS_G = 0, REF_CLS_H = 1 };
 #define REF_MAXP 2
 #define REF_DC_NCOORD 2
 #define REF_PLO (-1)
-#define REF_PHI 12
+#define REF_PHI 11
 static const parsec_task_class_t *const ref_tc[REF_NCLS] = { &grid_G, &grid_H };
 static const parsec_flow_t *const ref_flow[REF_NCLS][REF_MAXF] = {
     { &flow_of_grid_G_for_R, &flow_of_grid_G_for_A, &flow_of_grid_G_for_W },
